@@ -181,7 +181,10 @@ def judge(case, obs):
 
 
 def replay_case(case):
-    obs = run_case(case)
+    """case["log"]: logging configuration (default | debug = `maestro -d 1`), see c07_adapters.LogLevel"""
+    with F.LogLevel(case.get("log", "default")):
+        obs = run_case(case)
+    obs["log"] = case.get("log", "default")
     return obs, judge(case, obs)
 
 
@@ -272,7 +275,13 @@ def run_flux(ck):
     def bump(k):
         hist[k] = hist.get(k, 0) + 1
 
+    turn = [ck.seed]
+
     def account(case, origin):
+        if "log" not in case:        # the logging configuration alternates over the generated cases
+            turn[0] += 1
+            case["log"] = F.LOG_LEVELS[turn[0] % 2]
+        bump("log=%s" % case["log"])
         obs, verdict = replay_case(case)
         ids, broker = case["ids"], case.get("broker", {})
         nunk = len([i for i in ids if i not in broker])
@@ -286,11 +295,12 @@ def run_flux(ck):
         if obs.get("how"):
             how[case["version"]] = obs["how"]
         key = ("fluxq", case["version"], tuple(ids), tuple(sorted(broker.items())), tuple(case.get("order", [])),
-               case.get("dead"), case.get("where"))
+               case.get("dead"), case.get("where"), case.get("log"))
         ck.count(key, nontrivial=len(ids) >= 2 or nunk > 0 or bool(case.get("dead")))
         rec = dict(case, observed=obs, origin=origin)
         if verdict:
-            ck.violation("C16/C20 (flux %s check_jobs): %s" % (case["version"], verdict), rec)
+            ck.violation("C16/C20 (flux %s check_jobs%s): %s" % (
+                case["version"], ", DEBUG logging as under -d 1" if case.get("log") == "debug" else "", verdict), rec)
         elif obs.get("setup_exc"):
             ck.mismatch("C16 flux status query: the flux %s adapter could not be set up under the fake flux module"
                         % case["version"], rec, obs["setup_exc"])
